@@ -313,7 +313,8 @@ func verifListing(sf *SexpFunction, seen map[*SexpFunction]bool) *VerifListing {
 		case PopScopeTransferToDataStackInstr:
 			v.Op = "popscopetodata"
 		case TailCallInstr:
-			v.Op, v.Sym, v.N, v.Off = "tailcall", t.sym.name, t.nargs, t.scopes
+			// N: operands taken from the data stack (none: the instruction evaluates the arguments itself)
+			v.Op, v.Sym, v.N, v.Off, v.Nargs = "tailcall", t.sym.name, 0, t.scopes, len(t.args)
 		case PrepareCallInstr:
 			v.Op, v.Sym, v.N = "precall", t.sym.name, t.nargs
 		default:
